@@ -32,6 +32,7 @@ def run(ctx):
     for g in ER.operation_bodies(F, "add_tx_to_block"):
         hits = [(bi, rvalue_origin(g, st["rv"], 0, frozenset(), 30)) for bi, b in enumerate(g.blocks) for st in b["stmts"]
                 if st["k"] == "assign" and st["lhs"].get("p") and st["lhs"]["p"][-1] == ".waiting_tx_count" and len(st["lhs"]["p"]) == 2]
+        hits = [(bi, v) for (bi, v) in hits if "waiting_tx_count" in ER._field_reads(v)]     # updates, not the per-block reset to 0
         if hits:
             upd.append((g, hits))
     R.floor("tx_count_update_bodies", len(upd), 1)
